@@ -1179,7 +1179,10 @@ def run_wrapper_probes(r):
             judge_row(row, spelling, tag, got, exact=True)
     # (2) every public method of DataArray: what the translator does with the name must cover what xarray does
     auto = 0
-    for name in sorted(n for n in dir(xr.DataArray) if not n.startswith("_")):
+    io = lambda n: (n.startswith("to_") and n not in ("to_dataset", "to_array", "to_dataarray", "to_numpy", "to_masked_array",
+                                                         "to_index", "to_series", "to_pandas", "to_dict", "to_dataframe")) \
+        or n in ("plot", "pipe", "map_blocks", "from_dict", "from_series", "from_iris")      # nothing that writes files
+    for name in sorted(n for n in dir(xr.DataArray) if not n.startswith("_") and not io(n)):
         for tag, src in rasters[::7]:
             f = getattr(src, name, None)
             if not callable(f):
